@@ -14,6 +14,19 @@ TOKENS = ["a", " ", "&", "=", "%", "+", "#", "?", "/", "é", "%41", ",", ":", ";
 ANN_FORMS = ["none", "announce", "list1", "list2", "both", "both-differ"]
 URL_FORMS = ["absent", "list0", "list1", "list2", "string"]
 EXTRA = ["plain", "extra"]
+# info-level keys NAMED like the top-level tracker / web-seed keys (legal
+# unknown info keys: part of the hashed bytes, but not "the metafile's tracker
+# URLs / web-seed URLs", which live at the top level only).  Combined with the
+# announce-form x url-list-form product every namesake occurs with and without
+# its top-level counterpart.
+SHADOWS = {
+    "shadow": (b"announce", b"announce-list", b"url-list"),
+    "shadow-announce": (b"announce",),
+    "shadow-announce-list": (b"announce-list",),
+    "shadow-url-list": (b"url-list",),
+    # the string form of an info-level url-list, and an empty tier list
+    "shadow-forms": (b"announce-list:empty", b"url-list:string"),
+}
 
 
 # whole, realistic URLs (what matters here: how a URL *ends*)
@@ -108,6 +121,20 @@ def build(version, name, s, ann, url, extra, seed, single, small=False):
         meta[b"url-list"] = [w[0], w[1]]
     elif url == "string":
         meta[b"url-list"] = w[0]
+    if extra in SHADOWS:
+        x = model.u(s)
+        for k in SHADOWS[extra]:
+            if k == b"announce":
+                meta[b"info"][k] = x + b"info-level-t"
+            elif k == b"announce-list":
+                meta[b"info"][k] = [[x + b"info-level-t0"],
+                                    [x + b"info-level-t1"]]
+            elif k == b"url-list":
+                meta[b"info"][k] = [x + b"info-level-w0", x + b"info-level-w1"]
+            elif k == b"announce-list:empty":
+                meta[b"info"][b"announce-list"] = []
+            elif k == b"url-list:string":
+                meta[b"info"][b"url-list"] = x + b"info-level-w"
     if extra == "extra":
         meta[b"info"][b"x-unknown"] = [b"\xff\xfe", 3, {b"k": b"\x80"}]
         meta[b"info"][b"source"] = model.u(s)
@@ -157,6 +184,13 @@ class MagnetCheck:
             "foreign metafiles are canonical bencoding from the reference "
             "encoder; key sets = {announce forms} x {url-list forms} x "
             "{unknown info keys incl. non-UTF-8 byte strings}",
+            "info dictionaries that carry extra keys NAMED announce / "
+            "announce-list / url-list (all three at once; thorough: also each "
+            "alone, an empty info-level announce-list and a string-valued "
+            "info-level url-list), for the one-token strings, crossed with "
+            "every announce form x url-list form, so each namesake occurs with "
+            "and without its top-level counterpart: tr / ws come from the "
+            "top-level keys only",
             "names and URLs: every string of length <= 2 (thorough 3) over an "
             "alphabet of URL-significant and non-ASCII tokens; all valid UTF-8",
             "version requests: automatic for all; 1, 2, 3 for hybrids; the URI "
@@ -171,7 +205,8 @@ class MagnetCheck:
         ]
         self.rule = (
             "full product version x single/dir x announce form x url-list form "
-            "x extra keys x string x version request x route (library | CLI "
+            "x extra keys (unknown ones | info-level namesakes of the tracker "
+            "and web-seed keys) x string x version request x route (library | CLI "
             "for a sub-product); state = one distinct metafile; transition = "
             "one magnet() call of the real code; URI parsed with urllib and "
             "compared with the reference model computed from the raw bytes")
@@ -214,12 +249,13 @@ class MagnetCheck:
             return self.run_paths(g, res, work)
         version = g["version"]
         reqs = [0] if version != 3 else [0, 1, 2, 3]
+        shadows = ["shadow"] if g["tier"] == "quick" else list(SHADOWS)
         for s in strings(g["tier"]):
-            for extra in EXTRA + ["small"]:
+            for extra in EXTRA + ["small"] + shadows:
                 for single in (False, True):
                     if single and extra == "extra":
                         continue
-                    if extra == "small" and len(s) != 1:
+                    if (extra == "small" or extra in SHADOWS) and len(s) != 1:
                         continue
                     raw = build(version, s, s, g["ann"], g["url"],
                                 "plain" if extra == "small" else extra,
@@ -228,7 +264,8 @@ class MagnetCheck:
                     for vr in reqs:
                         routes = ["lib"]
                         if (len(s) == 1 or s in BENCODEISH) and \
-                                extra in ("plain", "small"):
+                                (extra in ("plain", "small") or
+                                 extra in SHADOWS):
                             routes.append("cli")
                         for route in routes:
                             probs = self.run_case(raw, vr, route, work)
